@@ -375,6 +375,9 @@ type runState struct {
 	code      int16
 	cancelled bool
 	exited    bool
+	// cancelPending: the runner was told to stop while this task runs and the scenario lets the environment
+	// decide how the process reacts (dies from the signal / handles it and exits non-zero / exits 0)
+	cancelPending bool
 }
 
 type MockRunner struct {
@@ -489,6 +492,10 @@ func (m *MockRunner) Cancel() {
 		m.cancelled = true
 		for _, rs := range m.runs {
 			if !rs.decided && !rs.exited {
+				if w.CancelOutcomes && rs.parked {
+					rs.cancelPending = true
+					continue
+				}
 				rs.cancelled = true
 				rs.decided = true
 				atomic.StoreInt32(&rs.wake, 1)
@@ -545,26 +552,27 @@ type WorldOpts struct {
 }
 
 type World struct {
-	S            *vsched.Sched
-	R            *prunner.PipelineRunner
-	Opts         WorldOpts
-	Log          []Event
-	Mocks        []*MockRunner
-	Store        *recStore
-	pollers      []*graphReg // registered poll loops (a slice, not a map: it is touched by managed threads and by the explorer)
-	Ctx          context.Context
-	CancelCtx    context.CancelFunc
-	nDrivers     int
-	Accepted     int // number of accepted jobs so far (as seen by drivers)
-	DefIdx       int
-	lastDump     *Dump
-	FailOK       bool // environment may let tasks fail
-	ForcedCtx    context.Context
-	ForcedCancel context.CancelFunc
-	forcedDone   bool
-	initErr      error
-	logsBefore   map[string]string
-	pub          sync.Mutex // real lock: orders the construction of the runner before every driver (race build)
+	S              *vsched.Sched
+	R              *prunner.PipelineRunner
+	Opts           WorldOpts
+	Log            []Event
+	Mocks          []*MockRunner
+	Store          *recStore
+	pollers        []*graphReg // registered poll loops (a slice, not a map: it is touched by managed threads and by the explorer)
+	Ctx            context.Context
+	CancelCtx      context.CancelFunc
+	nDrivers       int
+	Accepted       int // number of accepted jobs so far (as seen by drivers)
+	DefIdx         int
+	lastDump       *Dump
+	FailOK         bool // environment may let tasks fail
+	CancelOutcomes bool // environment decides how a task reacts to being told to stop
+	ForcedCtx      context.Context
+	ForcedCancel   context.CancelFunc
+	forcedDone     bool
+	initErr        error
+	logsBefore     map[string]string
+	pub            sync.Mutex // real lock: orders the construction of the runner before every driver (race build)
 }
 
 func (w *World) log(e Event) {
@@ -838,7 +846,7 @@ type EnvEvent struct {
 
 func (e EnvEvent) String() string {
 	switch e.Kind {
-	case "done", "fail":
+	case "done", "fail", "die", "exitnz", "exit0":
 		return fmt.Sprintf("%s(%d/%s)", e.Kind, e.Inst, e.Task)
 	case "adv":
 		return fmt.Sprintf("adv(%v)", e.D)
@@ -869,6 +877,24 @@ func (w *World) Apply(e EnvEvent) bool {
 				rs.ok = e.Kind == "done"
 				if !rs.ok {
 					rs.code = 3
+				}
+				w.log(Event{Kind: EvEnv, Detail: e.String(), Inst: e.Inst, Task: e.Task, Job: w.Mocks[e.Inst-1].job})
+				atomic.StoreInt32(&rs.wake, 1)
+				return true
+			}
+		}
+		return false
+	case "die", "exitnz", "exit0":
+		for _, rs := range w.ParkedRuns() {
+			if rs.inst == e.Inst && rs.task == e.Task && rs.cancelPending {
+				rs.decided = true
+				switch e.Kind {
+				case "die":
+					rs.cancelled = true
+				case "exitnz":
+					rs.ok, rs.code = false, 3
+				case "exit0":
+					rs.ok = true
 				}
 				w.log(Event{Kind: EvEnv, Detail: e.String(), Inst: e.Inst, Task: e.Task, Job: w.Mocks[e.Inst-1].job})
 				atomic.StoreInt32(&rs.wake, 1)
